@@ -61,6 +61,16 @@ def draw_lot(g: np.random.Generator, i):
             b_max_y = b_min * float(g.uniform(1.0, 4.0))
         if b_min < max(length, width) / 16.5 or b_max_x < b_min or b_max_y < b_min:
             continue
+        if i % 11 == 7:
+            # strip-shaped land: the short side is shorter than the largest spacing (single-row fields at the sparse end). Generator
+            # exceptions on such land are counted like those of narrow windows; whatever lists it produces are judged
+            long_side = float(round(g.uniform(40, 120), 1))
+            b_min = float(round(g.uniform(3.0, 6.0), 1))
+            b_max_x = float(round(b_min * g.uniform(1.6, 3.5), 1))
+            b_max_y = float(round(b_min * g.uniform(1.6, 3.5), 1))
+            short_side = float(round(g.uniform(0.4, 0.98) * min(b_max_x, b_max_y), 1))
+            length, width = (long_side, short_side) if g.random() < 0.5 else (short_side, long_side)
+            return {"length": length, "width": width, "b_min": b_min, "b_max_x": b_max_x, "b_max_y": b_max_y, "narrow": True, "strip": True}
         if i % 5 == 4:
             # narrow windows: b_max barely above b_min, so that often NO integer count fits on a side (the tool then produces an
             # empty list, or no list at all) - whatever fields it does produce are still judged
@@ -201,6 +211,8 @@ def run_shard(spec):
                 continue
             if lot.get("narrow"):
                 res["narrow_window_lots_judged"] = res.get("narrow_window_lots_judged", 0) + 1
+            if lot.get("strip"):
+                res["strip_lot_methods_judged"] = res.get("strip_lot_methods_judged", 0) + 1
             v, nf, big = judge_lot(method, lot, lists)
             res["fields"] += nf
             res["per_method"][method] = res["per_method"].get(method, 0) + nf
@@ -245,6 +257,7 @@ def check(tier, seed):
         for m, c in r["per_method"].items():
             rep.count("fields_" + m, c)
         rep.count("narrow_window_lot_methods_judged", r.get("narrow_window_lots_judged", 0))
+        rep.count("strip_lot_methods_judged", r.get("strip_lot_methods_judged", 0))
         rep.count("narrow_window_exceptions_not_judged", r.get("narrow_window_exceptions", 0))
         for v in r["viol"]:
             rep.violate(v["mechanism"], f"{v['method']} lot {v['lot']}: {v['message']}", {"lot": v["lot"], "method": v["method"], "list": v.get("list"), "field": v.get("field")})
